@@ -1148,7 +1148,7 @@ async fn export_replay() {
 // =====================================================================================================
 
 struct RecSink {
-    reach: Vec<(Option<bgp::Nexthop>, Arc<Vec<packet::Attribute>>)>,
+    reach: Vec<(Option<bgp::Nexthop>, Arc<Vec<packet::Attribute>>, u32)>,
     unreach: usize,
 }
 
@@ -1157,12 +1157,12 @@ impl crate::event::export::NlriSink for RecSink {
         &mut self,
         _dest_id: u32,
         _nlri: packet::Nlri,
-        _path_id: u32,
+        path_id: u32,
         nexthop: Option<bgp::Nexthop>,
         attr: Arc<Vec<packet::Attribute>>,
         _source: &Arc<table::Source>,
     ) {
-        self.reach.push((nexthop, attr));
+        self.reach.push((nexthop, attr, path_id));
     }
     fn unreach(&mut self, _dest_id: u32, _nlri: packet::Nlri, _path_id: u32) {
         self.unreach += 1;
@@ -1377,10 +1377,11 @@ fn prop_replay() {
                 confederation_id: if confed { P_CONFED_ID } else { 0 },
             };
             let cluster_id = matches!(role, PeerRole::Ibgp | PeerRole::IbgpRrClient).then_some(P_CLUSTER);
-            let mut attrs = vec![
-                packet::Attribute::new_with_value(packet::Attribute::ORIGIN, 0).unwrap(),
-                packet::Attribute::new_with_bin(packet::Attribute::AS_PATH, prop_aspath(asp)).unwrap(),
-            ];
+            let mut attrs = vec![packet::Attribute::new_with_value(packet::Attribute::ORIGIN, 0).unwrap()];
+            // "absent": a route originated through the API may carry no AS_PATH attribute at all
+            if asp != "absent" {
+                attrs.push(packet::Attribute::new_with_bin(packet::Attribute::AS_PATH, prop_aspath(asp)).unwrap());
+            }
             let hs: Vec<&str> = if has == "-" { vec![] } else { has.split(',').collect() };
             for h in &hs {
                 attrs.push(match *h {
@@ -1418,16 +1419,37 @@ fn prop_replay() {
                 replaced_path_id: None,
                 current_paths: Arc::new(vec![path]),
             };
+            // third run: the ADD-PATH branch with a COMPANION ranked first - a locally originated path with an explicit next
+            // hop (path id 2); every path of a destination is rewritten for what ITS OWN source is
+            let companion = table::Path {
+                local_path_id: 2,
+                source: table::Source::local(),
+                nexthop: Some(bgp::Nexthop::V4(Ipv4Addr::new(198, 51, 100, 7))),
+                attr: Arc::new(vec![
+                    packet::Attribute::new_with_value(packet::Attribute::ORIGIN, 0).unwrap(),
+                    packet::Attribute::new_with_bin(packet::Attribute::AS_PATH, vec![]).unwrap(),
+                    packet::Attribute::new_with_value(packet::Attribute::LOCAL_PREF, 900).unwrap(),
+                ]),
+            };
+            let with_companion = table::NlriChange {
+                family: Family::IPV4,
+                net: "10.9.0.0/16".parse().unwrap(),
+                dest_id: 1,
+                best_changed: true,
+                any_changed: true,
+                replaced_path_id: None,
+                current_paths: Arc::new(vec![companion, change.current_paths[0].clone()]),
+            };
             let mut outs = Vec::new();
-            for emax in [1usize, 2usize] {
+            for (emax, ch) in [(1usize, &change), (2usize, &change), (3usize, &with_companion)] {
                 let mut em = crate::event::export::ExportMap::new(if emax > 1 { vec![Family::IPV4] } else { vec![] });
                 let mut sink = RecSink { reach: Vec::new(), unreach: 0 };
                 crate::event::export::process_nlri_change(
-                    &change, emax, dst_addr, &mut em, &mut sink, &ctx, policy.as_deref(), cluster_id, None, None, None,
+                    ch, emax, dst_addr, &mut em, &mut sink, &ctx, policy.as_deref(), cluster_id, None, None, None,
                 );
-                outs.push(match sink.reach.first() {
+                outs.push(match sink.reach.iter().find(|r| r.2 == 1 || emax == 1) {
                     None => "{\"sent\":false}".to_string(),
-                    Some((nh, a)) => prop_describe(*nh, a, local_addr, orig_nh),
+                    Some((nh, a, _)) => prop_describe(*nh, a, local_addr, orig_nh),
                 });
             }
             if llgr {
@@ -1436,7 +1458,7 @@ fn prop_replay() {
             outs
         });
         match res {
-            Ok(o) => writeln!(out, "{{\"i\":{},\"plain\":{},\"addpath\":{}}}", idx, o[0], o[1]).unwrap(),
+            Ok(o) => writeln!(out, "{{\"i\":{},\"plain\":{},\"addpath\":{},\"addpath_companion\":{}}}", idx, o[0], o[1], o[2]).unwrap(),
             Err(_) => writeln!(out, "{{\"i\":{},\"panic\":true}}", idx).unwrap(),
         }
     }
